@@ -11,7 +11,7 @@ package memefish
 // Vocabulary
 //
 // TokOK: the current token lies inside the buffer and ends where the lexer stands.
-// @ spec TokOK(l) = 0 <= l.Token.Pos && l.Token.Pos <= l.Token.End && l.Token.End == l.pos && (l.Token.Kind == "<eof>" ==> l.Token.Pos == len(l.Buffer)) && (l.Token.Kind == ">>" ==> l.Token.End == l.Token.Pos + 2) && (l.Token.Kind != ">" ==> len(l.Token.Raw) == l.Token.End - l.Token.Pos && (isSub(l.Token.Raw, l.Buffer, l.Token.Pos, l.Token.End) || (l.Token.Kind == "<bad>" && l.Token.Pos == l.Token.End) || l.Token.Kind == "")) && (!literalKind(l.Token.Kind) ==> l.Token.End - l.Token.Pos == len(l.Token.Kind)) && (l.Token.Kind == "<param>" ==> len(l.Token.AsString) == l.Token.End - l.Token.Pos - 1) && (l.Token.Kind == "<ident>" ==> len(l.Token.AsString) > 0)
+// @ spec TokOK(l) = 0 <= l.Token.Pos && l.Token.Pos <= l.Token.End && l.Token.End == l.pos && (l.Token.Kind == "<eof>" ==> l.Token.Pos == len(l.Buffer)) && (l.Token.Kind == ">>" ==> l.Token.End == l.Token.Pos + 2) && (l.Token.Kind != ">" ==> len(l.Token.Raw) == l.Token.End - l.Token.Pos && (isSub(l.Token.Raw, l.Buffer, l.Token.Pos, l.Token.End) || (l.Token.Kind == "<bad>" && l.Token.Pos == l.Token.End) || l.Token.Kind == "")) && (!literalKind(l.Token.Kind) ==> l.Token.End - l.Token.Pos == len(l.Token.Kind)) && (l.Token.Kind == "<param>" ==> len(l.Token.AsString) == l.Token.End - l.Token.Pos - 1) && (l.Token.Kind == "<ident>" ==> len(l.Token.AsString) > 0) && 0 <= trivStart(l) && trivStart(l) <= l.Token.Pos
 // a token that is neither <eof> nor <bad> nor the zero token is not empty (this is what makes the parser advance)
 // @ spec nonEmptyTok(l) = l.Token.Kind == "<eof>" || l.Token.Kind == "" || l.Token.Pos < l.Token.End || (l.Token.Kind == "<bad>" && l.Token.Pos == len(l.Buffer))
 // the spelling recorded in the current token has the length of its range (the '>' left over from a '>>'
@@ -360,6 +360,7 @@ package memefish
 // @ func memefish.(*Parser).parseType
 // @   inherit parser
 // @   weak
+// @   ensures[C06] exact: len(p.errors) == old(len(p.errors)) ==> spans(result, lowerBound(), trivStart(p.Lexer)) || (p.Lexer.Token.Kind == ">" && spans(result, lowerBound(), p.Lexer.Token.Pos))
 // @   panics never
 // @ func memefish.(*Parser).parseDDL
 // @   inherit parser
@@ -443,7 +444,7 @@ package memefish
 // ---------------------------------------------------------------------------------------------
 // Public entry points (C03: never panic, typed error; C09: nil error iff clean and fully consumed)
 
-// @ spec FreshParser(p) = p != nil && p.Lexer != nil && p.Lexer.File != nil && p.Lexer.pos == 0 && p.Lexer.Token.End == 0 && isNil(p.Lexer.File.lines) && len(p.errors) == 0 && p.Lexer.Token.Pos == 0 && p.Lexer.Token.Kind == "" && len(p.Lexer.Token.Raw) == 0
+// @ spec FreshParser(p) = p != nil && p.Lexer != nil && p.Lexer.File != nil && p.Lexer.pos == 0 && p.Lexer.Token.End == 0 && isNil(p.Lexer.File.lines) && len(p.errors) == 0 && p.Lexer.Token.Pos == 0 && p.Lexer.Token.Kind == "" && len(p.Lexer.Token.Raw) == 0 && len(p.Lexer.Token.Space) == 0 && len(p.Lexer.Token.Comments) == 0
 
 // @ schema entry memefish\.\(\*Parser\)\.Parse\w+
 // @   props C03 C09
@@ -577,6 +578,7 @@ package memefish
 // @ func memefish.(*Parser).parseFieldType
 // @   inherit parser
 // @   weak
+// @   ensures[C06] exact: len(p.errors) == old(len(p.errors)) ==> spans(result, lowerBound(), trivStart(p.Lexer)) || (p.Lexer.Token.Kind == ">" && spans(result, lowerBound(), p.Lexer.Token.Pos))
 
 // @ func memefish.(*Parser).parseSimpleType
 // @   inherit parser
@@ -749,20 +751,40 @@ package memefish
 
 // @ func memefish.(*Parser).parseOnDeleteAction
 // @   inherit parser
+// @   ensures[C05] inside: old(p.Lexer.Token.Pos) < result1 && result1 <= p.Lexer.Token.Pos
 // @   ensures[C06] endpos: len(p.errors) == old(len(p.errors)) ==> result1 == trivStart(p.Lexer) && result1 >= 0
 // @ func memefish.(*Parser).tryParseOnDeleteAction
 // @   inherit parseropt
+// @   ensures[C05] inside: result1 < 0 || (old(p.Lexer.Token.Pos) < result1 && result1 <= p.Lexer.Token.Pos)
 // @   ensures[C06] endpos: len(p.errors) == old(len(p.errors)) ==> (result1 >= 0 && result1 == trivStart(p.Lexer)) || (result1 < 0 && lexUnmoved(p, old(p.Lexer.Token.Pos), old(trivStart(p.Lexer))))
 // @ func memefish.(*Parser).tryParseDirection
 // @   inherit parseropt
+// @   ensures[C05] inside: result1 < 0 || (old(p.Lexer.Token.Pos) <= result1 && result1 + len(result0) <= p.Lexer.Token.Pos)
 // @   ensures[C06] dirpos: len(p.errors) == old(len(p.errors)) ==> (result1 >= 0 && result1 == old(p.Lexer.Token.Pos) && result1 + len(result0) == trivStart(p.Lexer)) || (result1 < 0 && len(result0) == 0 && lexUnmoved(p, old(p.Lexer.Token.Pos), old(trivStart(p.Lexer))))
 // @ func memefish.(*Parser).parseArrayLiteralBody
 // @   inherit parser
+// @   ensures[C05] inside: old(p.Lexer.Token.Pos) <= result1 && result1 < result2 && result2 < p.Lexer.Token.Pos && within(result0, result1 + 1, result2)
+// @   loop 0 invariant[C05] vin: lbrack == old(p.Lexer.Token.Pos) && lbrack < p.Lexer.Token.Pos && within(values, lbrack + 1, p.Lexer.Token.Pos)
 // @   ensures[C06] brackets: len(p.errors) == old(len(p.errors)) ==> result1 == old(p.Lexer.Token.Pos) && result2 >= 0 && result2 + 1 == trivStart(p.Lexer)
 // @ func memefish.(*Parser).parseTypeNotNull
 // @   inherit parser
+// @   ensures[C05] inside: result2 < 0 || ($end(result0) <= result2 && result2 + 4 <= p.Lexer.Token.Pos)
 // @   ensures[C06] nullpos: len(p.errors) == old(len(p.errors)) ==> $pos(result0) == old(p.Lexer.Token.Pos) && ((result1 && result2 >= 0 && result2 + 4 == trivStart(p.Lexer)) || (!result1 && result2 < 0 && $end(result0) == trivStart(p.Lexer)))
 // @ func memefish.(*Parser).tryParseTablePrivilegeColumns
 // @   inherit parseropt
+// @   ensures[C05] inside: (result1 < 0 && len(result0) == 0) || (old(p.Lexer.Token.Pos) < result1 && result1 < p.Lexer.Token.Pos && within(result0, old(p.Lexer.Token.Pos) + 1, result1))
 // @   ensures[C06] rparen: len(p.errors) == old(len(p.errors)) ==> (result1 >= 0 && result1 + 1 == trivStart(p.Lexer)) || (result1 < 0 && lexUnmoved(p, old(p.Lexer.Token.Pos), old(trivStart(p.Lexer))))
 
+
+// Types that may end at the first half of a '>>' (the parser splits that token in place): their range
+// ends at the end of the last consumed token, or - right after a split - where the second '>' starts.
+// @ func memefish.(*Parser).parseArrayType
+// @   inherit parser
+// @   ensures[C06] exact: len(p.errors) == old(len(p.errors)) ==> spans(result, lowerBound(), trivStart(p.Lexer)) || (p.Lexer.Token.Kind == ">" && spans(result, lowerBound(), p.Lexer.Token.Pos))
+// @ func memefish.(*Parser).parseStructType
+// @   inherit parser
+// @   ensures[C06] exact: len(p.errors) == old(len(p.errors)) ==> spans(result, lowerBound(), trivStart(p.Lexer)) || (p.Lexer.Token.Kind == ">" && spans(result, lowerBound(), p.Lexer.Token.Pos))
+// @ func memefish.(*Parser).parseStructTypeFields
+// @   inherit parser
+// @   ensures[C05] inside: old(p.Lexer.Token.Pos) <= result1 && result1 < p.Lexer.Token.Pos && within(result0, old(p.Lexer.Token.Pos), result1)
+// @   ensures[C06] gtpos: len(p.errors) == old(len(p.errors)) ==> result1 >= 0 && (result1 + 1 == trivStart(p.Lexer) || (p.Lexer.Token.Kind == ">" && result1 + 1 == p.Lexer.Token.Pos))
